@@ -49,6 +49,66 @@ Theorem typed_get_spec k r :
 Proof. destruct r as [o|]; simpl; [|reflexivity]. unfold adapt. destruct (N.eqb (o_kind o) k); reflexivity. Qed.
 
 (* instantiation changes nothing but the placeholder *)
+(* a typed filtered node (CloneWithFilter, SubscribeWithFilter, ...) is the
+   typed wrapper of the untyped filtered node: restricting to the type and
+   filtering commute, so "typed filtered cache = the filter applied to the typed
+   parent cache" *)
+Lemma typed_list_cons k o l :
+  typed_list k (o :: l) = (if N.eqb (o_kind o) k then [o] else []) ++ typed_list k l.
+Proof. unfold typed_list, adapt. simpl. destruct (N.eqb (o_kind o) k); reflexivity. Qed.
+
+Theorem typed_list_filter_commute k (f : obj -> bool) l :
+  typed_list k (filter f l) = filter f (typed_list k l).
+Proof.
+  induction l as [|o l IH]; [reflexivity|].
+  rewrite typed_list_cons. simpl filter at 1.
+  destruct (f o) eqn:Hf.
+  - rewrite typed_list_cons, IH. destruct (N.eqb (o_kind o) k); simpl; rewrite ?Hf; reflexivity.
+  - rewrite IH. destruct (N.eqb (o_kind o) k); simpl; rewrite ?Hf; reflexivity.
+Qed.
+
+Theorem typed_list_app k a b : typed_list k (a ++ b) = typed_list k a ++ typed_list k b.
+Proof. unfold typed_list. apply flat_map_app. Qed.
+
+Theorem typed_events_app k a b : typed_events k (a ++ b) = typed_events k a ++ typed_events k b.
+Proof. unfold typed_events. apply flat_map_app. Qed.
+
+(* unitary handlers *)
+Theorem unitary_init_iff k objs :
+  unitary_callback k (TInit objs) <> [] <-> exists o, typed_list k objs = [o].
+Proof.
+  simpl. destruct (typed_list k objs) as [|o [|o' r]]; split; intro H.
+  - exfalso; apply H; reflexivity.
+  - destruct H as [o H]; discriminate.
+  - exists o; reflexivity.
+  - discriminate.
+  - exfalso; apply H; reflexivity.
+  - destruct H as [x H]; discriminate.
+Qed.
+
+Theorem unitary_init_is_the_object k objs o :
+  typed_list k objs = [o] -> unitary_callback k (TInit objs) = [TInit [o]] /\ o_kind o = k.
+Proof.
+  intro H. simpl. rewrite H. split; [reflexivity|].
+  pose proof (typed_list_all_of_type k objs) as Hall. rewrite H in Hall. inversion Hall; assumption.
+Qed.
+
+Theorem unitary_events_are_typed_events k ty o :
+  unitary_callback k (TEvent ty o) = typed_callback k (TEvent ty o).
+Proof. reflexivity. Qed.
+
+(* apart from the initial callback a unitary handler sees exactly what a typed
+   handler sees, in the same order *)
+Definition is_init (c : tcb) : bool := match c with TInit _ => true | _ => false end.
+Theorem unitary_log_events k l :
+  filter (fun c => negb (is_init c)) (unitary_log k l) = filter (fun c => negb (is_init c)) (typed_log k l).
+Proof.
+  induction l as [|c l IH]; [reflexivity|].
+  unfold unitary_log, typed_log in *. simpl. rewrite !filter_app, IH. f_equal.
+  destruct c as [objs|ty o]; [|reflexivity]. simpl.
+  destruct (typed_list k objs) as [|x [|y r]]; reflexivity.
+Qed.
+
 Theorem instantiate_preserves_skeleton ph ty template :
   ~ In ph template -> instantiate ph ty template = template.
 Proof.
